@@ -145,7 +145,7 @@ func keyedCases2(n int, alphabet []int) []string {
 func c14Cases(afterClear bool) []string {
 	var out []string
 	for o0 := 0; o0 <= 2; o0++ {
-		for op := 0; op <= 5; op++ {
+		for op := 0; op <= 6; op++ {
 			for bo := 0; bo <= 1; bo++ {
 				if afterClear {
 					if bo == 0 {
@@ -311,11 +311,14 @@ func init() {
 				Fixes: []string{"o0=2,o1=1,op0=0,op1=3", "o0=2,o1=1,op0=5,op1=3"}}},
 			[]Job{{H: "H_C14_Machine2B", K: 80, U: 3, Prune: true, Preempt: 2, TimeoutSec: 1200,
 				Fixes: []string{"o0=2,o1=1,op0=0,op1=1", "o0=2,o1=1,op0=0,op1=4"}}},
+			// a failed routine is replaced inside its backoff window, then the interval passes
+			[]Job{{H: "H_C14_Machine2B", K: 80, U: 3, Prune: true, Preempt: 2, TimeoutSec: 1200, Fixes: []string{"o0=2,o1=1,op0=6,op1=5"}}},
+			[]Job{{H: "H_C14_Machine2B", K: 80, U: 3, Prune: true, Preempt: 2, TimeoutSec: 1200, Fixes: []string{"o0=2,o1=2,op0=6,op1=5"}}},
 		),
 		Thorough: cat(
 			split(Job{H: "H_C14_Machine2B", K: 80, U: 3, Prune: true, Preempt: 2, Fixes: c14Cases(true), TimeoutSec: 6000}, 12),
 		),
-		Bounds:  "transition table of the restart machine: the first instance succeeds / fails / runs until cancelled, with and without a retry backoff, then ONE operation out of {RestartRoutine, SetContext(same,restart), SetContext(same), SetContext(other), ClearContext, backoff interval passes} (36 case splits; outcomes of the instances started by the operation are symbolic); thorough: the same after a preceding ClearContext (2 operations). The driver waits for quiescence between operations; reference state machine in the harness (run count, exit-callback count and error, WaitExited result, return values); schedules with at most 2 preemptions; K=60-80",
+		Bounds:  "transition table of the restart machine: the first instance succeeds / fails / runs until cancelled, with and without a retry backoff, then ONE operation out of {SetRoutine(new routine), RestartRoutine, SetContext(same,restart), SetContext(same), SetContext(other), ClearContext, backoff interval passes} (36 case splits; outcomes of the instances started by the operation are symbolic); thorough: the same after a preceding ClearContext (2 operations). The driver waits for quiescence between operations; reference state machine in the harness (run count, exit-callback count and error, WaitExited result, return values); schedules with at most 2 preemptions; K=60-80",
 		Outside: "operations issued while an instance is between 'returned' and 'recorded' (C05 covers overlapping calls), histories longer than 2 operations, backoff durations",
 	}
 
@@ -489,8 +492,9 @@ func init() {
 			{H: "H_C10_ResolveWithReleased", K: 84, U: 3, Prune: true, Preempt: 3, TimeoutSec: 6000, QueryMs: 3000000},
 			{H: "H_C10_Resolve", K: 84, U: 3, Prune: true, Preempt: 3, TimeoutSec: 6000, QueryMs: 3000000},
 			{H: "H_C10_AccessInvalidate", K: 64, U: 3, Prune: true, Preempt: 1, TimeoutSec: 9000, QueryMs: 6000000, Weight: 2},
+			{H: "H_C10_AccessPrompt", K: 64, U: 3, Prune: true, Preempt: 1, TimeoutSec: 9000, QueryMs: 6000000, Weight: 2},
 		},
-		Bounds:  "value already resolved; WaitWithReleased concurrent with one invalidation (SetContext), K=36; a consumer obtaining the value through ResolveWithReleased / Resolve, holding it, optionally invalidated by the resolver's released() while holding (symbolic), then releasing: value not released while referenced unless invalidated, released callback exactly once after an invalidation and never otherwise, every value released exactly once (K=66, at most 2 preemptions; thorough K=84, 3 preemptions). Thorough: Access whose first callback invocation invalidates its own value and waits until the invalidation is delivered (must be re-invoked with the replacement; must not return the stale invocation's result), schedules with at most 1 preemption, K=64 (encoding alone takes ~13 min)",
+		Bounds:  "value already resolved; WaitWithReleased concurrent with one invalidation (SetContext), K=36; a consumer obtaining the value through ResolveWithReleased / Resolve, holding it, optionally invalidated by the resolver's released() while holding (symbolic), then releasing: value not released while referenced unless invalidated, released callback exactly once after an invalidation and never otherwise, every value released exactly once (K=66, at most 2 preemptions; thorough K=84, 3 preemptions). Thorough: Access whose first callback invocation invalidates its own value and waits until the invalidation is delivered (must be re-invoked with the replacement; must not return the stale invocation's result; variant AccessPrompt: the replacement is not resolved until the first invocation has seen its context cancelled), schedules with at most 1 preemption, K=64 (encoding alone takes ~13 min)",
 		Outside: "more than one invalidation; an independent invalidator thread racing Access (unrolling does not finish)",
 	}
 
